@@ -95,7 +95,24 @@ def gen_case(rnd, tier='quick'):
         for _ in range(rnd.randint(1, 2)):
             ext.append({'id': rnd.choice([200, rnd.randint(1, n)]), 'estimate': rnd.choice(['5', None]), 'succ': [],
                         'succ_of': sorted(rnd.sample(range(n), rnd.randint(1, min(2, n)))), 'in_other_wbs': rnd.random() < 0.5})
-    return {'kind': 'cp', 'tasks': tasks, 'links': links, 'externals': ext, 'ext_first': rnd.random() < 0.5}
+    then = None
+    if rnd.random() < 0.3 and n >= 2:
+        # the plan is edited and asked again: the second answer belongs to the plan as it is then
+        k_ = rnd.random()
+        if k_ < 0.4 and links:
+            then = ['unlink'] + rnd.choice(links)
+        elif k_ < 0.75:
+            for _ in range(6):
+                a, b = rnd.sample(range(n), 2)
+                if a in sched.ancestors_of(shadow, b) or b in sched.ancestors_of(shadow, a) or [a, b] in links:
+                    continue
+                if sched.plain_cycle(shadow, links + [[a, b]]) or sched.effective_cycle(shadow, links + [[a, b]]):
+                    continue
+                then = ['link', a, b]
+                break
+        else:
+            then = [rnd.choice(['estimate', 'spent']), rnd.randrange(n), rnd.choice(['0', '9', '0.3', '2'])]
+    return {'kind': 'cp', 'tasks': tasks, 'links': links, 'externals': ext, 'ext_first': rnd.random() < 0.5, 'then': then}
 
 
 def oracle(case):
@@ -180,6 +197,31 @@ def judge(prop, case, acc):
     except Exception as e:
         acc.count('unbuildable:' + type(e).__name__)
         return
+    _judge_call(case, w, objs, exts, acc, '')
+    th = case.get('then')
+    if th:
+        import copy
+        case2 = copy.deepcopy(case)
+        case2['then'] = None
+        try:
+            if th[0] == 'unlink':
+                objs[th[1]].predecessors.remove(objs[th[2]])
+                case2['links'].remove([th[1], th[2]])
+            elif th[0] == 'link':
+                objs[th[1]].predecessors.append(objs[th[2]])
+                case2['links'].append([th[1], th[2]])
+            else:
+                setattr(objs[th[1]], th[0], num(th[2]))
+                case2['tasks'][th[1]][th[0]] = th[2]
+        except Exception as e:
+            acc.count('followup_edit_refused:' + type(e).__name__)
+            return
+        acc.count('calls_after_an_edit')
+        _judge_call(case2, w, objs, exts, acc, '/second-call-after-' + th[0], report_case=case)
+
+
+def _judge_call(case, w, objs, exts, acc, suffix, report_case=None):
+    report_case = report_case or case
     crit, total, chains = oracle(case)
     tasks = case['tasks']
     ch = sched.children_of(tasks)
@@ -238,7 +280,7 @@ def judge(prop, case, acc):
             V.append((f'C12/result-{kind}' + ('/summary-link' if has_summary_link else '') + ext_tag,
                       f'critical_path() = {got_ids}, exact zero-float leaves = {want_ids} (project length {total})'))
     for key, msg in V:
-        acc.violation(key, msg, case)
+        acc.violation(key + suffix, msg, report_case)
 
 
 def _exhaustive_layer(tier, shard, nshards, acc, budget=None):
